@@ -11,7 +11,7 @@ import (
 )
 
 // Relayout spreads statements over several lines the way gofmt leaves long ones: a line may end after a comma, after
-// a binary or assignment operator, and after the opening parenthesis of a call with arguments - places where Go's
+// a binary or assignment operator, and after the opening parenthesis of a call with arguments or the bracket of an index - places where Go's
 // semicolon insertion does nothing. The token sequence, hence the program, is unchanged. About one permitted place in
 // num/den is taken.
 func Relayout(rt *rapid.T, src string, num, den int) string {
@@ -73,7 +73,9 @@ func Relayout(rt *rapid.T, src string, num, den int) string {
 			breakable = true
 		case t.tok == token.LPAREN:
 			breakable = prevOperand // a call, not a parenthesised expression
-		case t.tok == token.LBRACK || t.tok == token.LBRACE:
+		case t.tok == token.LBRACK:
+			breakable = prevOperand // an index or slice expression (a slice type's bracket follows no operand or is closed at once)
+		case t.tok == token.LBRACE:
 		case t.tok == token.INC || t.tok == token.DEC || t.tok == token.ELLIPSIS || t.tok == token.PERIOD || t.tok == token.COLON || t.tok == token.ARROW || t.tok == token.NOT || t.tok == token.TILDE:
 		case t.tok.IsOperator() && prevOperand && t.tok != token.RPAREN && t.tok != token.RBRACK && t.tok != token.RBRACE && t.tok != token.SEMICOLON:
 			breakable = true // binary and assignment operators (define, assign, op-assign)
